@@ -111,7 +111,8 @@ impl Package {
     /// # Ok(()) }
     /// ```
     pub fn extract(&self, dest: impl AsRef<Path>) -> Result<(), Error> {
-        fs::create_dir(&dest)?;
+        let dest = dest.as_ref();
+        fs::create_dir(dest)?;
 
         let dirs = self
             .metadata
@@ -120,9 +121,7 @@ impl Package {
 
         // pull every base directory name in the package and create the directory in advance
         for dir in dirs {
-            let dir_path = dest
-                .as_ref()
-                .join(Path::new(dir).strip_prefix("/").unwrap_or(dest.as_ref()));
+            let dir_path = dest.join(relative_package_path(Path::new(dir))?);
             fs::create_dir_all(&dir_path)?;
         }
 
@@ -130,20 +129,27 @@ impl Package {
         // instead of reading each file entirely into memory (while the archive is also entirely in memory) before writing them
         for file in self.files()? {
             let file = file?;
-            let file_path = dest.as_ref().join(
-                file.metadata
-                    .path
-                    .strip_prefix("/")
-                    .unwrap_or(dest.as_ref()),
-            );
+            let file_path = dest.join(relative_package_path(&file.metadata.path)?);
+            // a symbolic link extracted earlier must not redirect this entry out of `dest`
+            ensure_no_symlink_in_parents(dest, &file_path)?;
+            let is_symlink = file_path
+                .symlink_metadata()
+                .is_ok_and(|m| m.file_type().is_symlink());
 
             let perms = fs::Permissions::from_mode(file.metadata.mode.permissions().into());
             match file.metadata.mode {
                 FileMode::Dir { .. } => {
+                    if is_symlink {
+                        fs::remove_file(&file_path)?;
+                    }
                     fs::create_dir_all(&file_path)?;
                     fs::set_permissions(&file_path, perms)?;
                 }
                 FileMode::Regular { .. } => {
+                    // never write through a symbolic link that is already there
+                    if is_symlink {
+                        fs::remove_file(&file_path)?;
+                    }
                     let mut f = fs::File::create(&file_path)?;
                     f.write_all(&file.content)?;
                     fs::set_permissions(&file_path, perms)?;
@@ -155,7 +161,12 @@ impl Package {
                     }
                     std::os::unix::fs::symlink(&file.metadata.linkto, &file_path)?;
                 }
-                _ => unreachable!("Encountered an unknown or invalid FileMode"),
+                mode => {
+                    return Err(Error::InvalidFileMode {
+                        raw_mode: mode.raw_mode().into(),
+                        reason: "only regular files, directories and symbolic links can be extracted",
+                    });
+                }
             }
         }
 
@@ -471,6 +482,48 @@ impl Package {
 
         Ok(())
     }
+}
+
+/// Turn a path recorded in a package into a path relative to the extraction directory.
+///
+/// Leading `/` and `.` components are dropped; `..` components are refused because they could
+/// lead out of the extraction directory.
+fn relative_package_path(path: &Path) -> Result<PathBuf, Error> {
+    let mut relative = PathBuf::new();
+    for component in path.components() {
+        match component {
+            std::path::Component::Normal(name) => relative.push(name),
+            std::path::Component::RootDir | std::path::Component::CurDir => {}
+            _ => {
+                return Err(Error::InvalidDestinationPath {
+                    path: path.to_string_lossy().to_string(),
+                    desc: "paths inside a package must not contain '..'",
+                });
+            }
+        }
+    }
+    Ok(relative)
+}
+
+/// Make sure that no directory between `dest` and `file_path` is a symbolic link.
+fn ensure_no_symlink_in_parents(dest: &Path, file_path: &Path) -> Result<(), Error> {
+    let relative = file_path.strip_prefix(dest).unwrap_or(file_path);
+    let mut current = dest.to_path_buf();
+    if let Some(parent) = relative.parent() {
+        for component in parent.components() {
+            current.push(component);
+            if current
+                .symlink_metadata()
+                .is_ok_and(|m| m.file_type().is_symlink())
+            {
+                return Err(Error::InvalidDestinationPath {
+                    path: file_path.to_string_lossy().to_string(),
+                    desc: "path leads through a symbolic link",
+                });
+            }
+        }
+    }
+    Ok(())
 }
 
 #[derive(Clone, Debug, PartialEq)]
